@@ -195,6 +195,23 @@ func AssertEqF(label string, got, want float64) {
 	}
 }
 
+// AssertEqFS is AssertEqF with the magnitude of the reference computation's intermediate values
+// supplied by the harness (e.g. |a|+|b| for a-b): natively the tolerance is relative to that scale and
+// not to 1, so results of tiny magnitude are compared meaningfully.  Symbolically it is AssertEqF.
+func AssertEqFS(label string, got, want, scale float64) {
+	if math.IsNaN(want) || math.IsInf(want, 0) || math.IsNaN(scale) {
+		return
+	}
+	if math.IsNaN(got) || math.IsInf(got, 0) {
+		fail("eq", label, fmt.Sprintf("got=%v want=%v", got, want))
+		return
+	}
+	tol := 1e-7*math.Max(math.Abs(scale), math.Max(math.Abs(got), math.Abs(want))) + 1e-300
+	if math.Abs(got-want) > tol {
+		fail("eq", label, fmt.Sprintf("got=%v want=%v (scale %v)", got, want, scale))
+	}
+}
+
 func AssertFinite(label string, x float64) {
 	if math.IsNaN(x) || math.IsInf(x, 0) {
 		fail("finite", label, fmt.Sprintf("got=%v", x))
